@@ -19,6 +19,7 @@ structure SettingsVal where
   frameSize : Nat := Gen.c_defaultDataFrameSize
   headerSize : Nat := 0
   hasWindowSize : Bool := false
+  hasTableSize : Bool := false
   /-- the (id, value) pairs as they came off the wire, in order -/
   pairs : List (Nat × Nat) := []
 deriving Repr, DecidableEq
@@ -73,7 +74,7 @@ def settingsRead : Bytes → SettingsVal → Option SettingsVal ⊕ Nat
     let key := k0 * 256 + k1
     let v := be32 [v0, v1, v2, v3]
     let s := { s with pairs := s.pairs ++ [(key, v)] }
-    if key = Gen.c_HeaderTableSize then settingsRead rest { s with tableSize := v }
+    if key = Gen.c_HeaderTableSize then settingsRead rest { s with tableSize := v, hasTableSize := true }
     else if key = Gen.c_EnablePush then
       if v > 1 then .inr Gen.c_ProtocolError else settingsRead rest { s with enablePush := v != 0 }
     else if key = Gen.c_MaxConcurrentStreams then settingsRead rest { s with maxStreams := v }
